@@ -572,6 +572,95 @@ pub fn rt_comment() {
     std::mem::forget(w);
 }
 
+struct Expect {
+    i: usize,
+}
+
+impl Expect {
+    fn bytes(&mut self, b: &[u8]) {
+        let mut k = 0;
+        while k < b.len() {
+            let t = q::peek_at(self.i).unwrap();
+            assert!(t.kind == 0 && t.mag == b[k] as u128, "writer output differs from the AIGER grammar (literal byte)");
+            self.i += 1;
+            k += 1;
+        }
+    }
+    fn num(&mut self, v: usize) {
+        let t = q::peek_at(self.i).unwrap();
+        assert!(t.kind == 1 && !t.neg && t.mag == v as u128, "writer output differs from the AIGER grammar (number)");
+        self.i += 1;
+    }
+    fn bin(&mut self, v: usize) {
+        let t = q::peek_at(self.i).unwrap();
+        assert!(t.kind == 2 && t.mag == v as u128, "writer output differs from the AIGER grammar (binary delta)");
+        self.i += 1;
+    }
+}
+
+/// `write_ordered_aig` in the binary format: header, latches (next state [reset]), outputs, bad,
+/// constraints, justice sizes, justice literals, fairness, delta-coded and gates, symbols, comment.
+#[kani::proof]
+pub fn w_ordered_document_order() {
+    let m: usize = 5;
+    let max_lit = 2 * m + 1;
+    let g0a: usize = kani::any();
+    let g0b: usize = kani::any();
+    kani::assume(g0a <= 8 && g0b <= g0a);
+    let aig = OrderedAig::<L> {
+        max_var_index: m,
+        input_count: 2,
+        latches: vec![OrderedLatch { next_state: any_lit(max_lit), initialization: None }],
+        outputs: vec![any_lit(max_lit)],
+        bad_state_properties: vec![any_lit(max_lit)],
+        invariant_constraints: vec![],
+        justice_properties: vec![vec![any_lit(max_lit), any_lit(max_lit)], vec![]],
+        fairness_constraints: vec![any_lit(max_lit)],
+        and_gates: vec![OrderedAndGate { inputs: [L::from_code(g0a), L::from_code(g0b)] }],
+        symbols: vec![Symbol { target: SymbolTarget::Latch(0), name: Cow::Borrowed("x") }],
+        comment: Some(String::from("x")),
+    };
+    let mut w = capture_writer();
+    w.write_ordered_aig(&aig);
+    rt_checks();
+    let mut e = Expect { i: 0 };
+    e.bytes(b"aig");
+    for v in [m, 2, 1, 1, 1, 1, 0, 2, 1] {
+        e.bytes(b" ");
+        e.num(v);
+    }
+    e.bytes(b"\n");
+    // latch: variable 3 (literal 6), uninitialised = its own literal
+    e.num(aig.latches[0].next_state.code());
+    e.bytes(b" ");
+    e.num(6);
+    e.bytes(b"\n");
+    e.num(aig.outputs[0].code());
+    e.bytes(b"\n");
+    e.num(aig.bad_state_properties[0].code());
+    e.bytes(b"\n");
+    e.num(2);
+    e.bytes(b"\n");
+    e.num(0);
+    e.bytes(b"\n");
+    e.num(aig.justice_properties[0][0].code());
+    e.bytes(b"\n");
+    e.num(aig.justice_properties[0][1].code());
+    e.bytes(b"\n");
+    e.num(aig.fairness_constraints[0].code());
+    e.bytes(b"\n");
+    // and gate: variable 4 (literal 8)
+    e.bin(8 - g0a);
+    e.bin(g0a - g0b);
+    e.bytes(b"l");
+    e.num(0);
+    e.bytes(b" x\n");
+    e.bytes(b"c\nx\n");
+    assert!(e.i == q::len(), "writer emitted more than the grammar allows");
+    std::mem::forget(aig);
+    std::mem::forget(w);
+}
+
 #[kani::proof]
 pub fn reach_binary_t3() {
     let mut w = capture_writer();
